@@ -20,6 +20,7 @@ type Config struct {
 //	       FP (variant V) from the key server Of presents at chain position Pos
 //	feed   send call Call's next token on its shell output
 //	end    close call Call's output and release its shell
+//	release let call Call, parked in Shell.Output (hold_output), go on to connect
 //	reset  reset call Call's network connections (fault)
 //	sleep  advance the fake clock by Ms
 type Action struct {
@@ -31,6 +32,8 @@ type Action struct {
 	Pos    int    `json:"pos,omitempty"`
 	V      int    `json:"v,omitempty"`
 	Ms     int    `json:"ms,omitempty"`
+	// HoldOutput (start): the call's Shell.Output parks until a release action
+	HoldOutput bool `json:"hold_output,omitempty"`
 }
 
 func (a Action) String() string {
@@ -123,10 +126,23 @@ func genCase(rng *simkit.RNG) (Config, []Action) {
 	maxAlive := rng.Range(1, 4)
 	var acts []Action
 	var alive []int
+	var held []int // started with hold_output and not released yet
 	var targets []int
+	holds := rng.Chance(2, 3) // whether this run parks calls in Output at all
+	unhold := func(k int) {
+		for i, h := range held {
+			if h == k {
+				held = append(held[:i], held[i+1:]...)
+				return
+			}
+		}
+	}
 	started := 0
 	for len(acts) < 90 && (started < ncalls || len(alive) > 0) {
-		w := []int{0, 0, 0, 1, 0} // start feed end sleep reset
+		w := []int{0, 0, 0, 1, 0, 0} // start feed end sleep reset release
+		if len(held) > 0 {
+			w[5] = 5
+		}
 		if started < ncalls {
 			if len(alive) < maxAlive {
 				w[0] = 8
@@ -177,6 +193,10 @@ func genCase(rng *simkit.RNG) (Config, []Action) {
 					a.V = rng.Intn(2)
 				}
 			}
+			if holds && rng.Chance(1, 2) {
+				a.HoldOutput = true
+				held = append(held, started)
+			}
 			acts = append(acts, a)
 			alive = append(alive, started)
 		case 1:
@@ -184,12 +204,18 @@ func genCase(rng *simkit.RNG) (Config, []Action) {
 		case 2:
 			i := rng.Intn(len(alive))
 			acts = append(acts, Action{Op: "end", Call: alive[i]})
+			unhold(alive[i])
 			alive = append(alive[:i], alive[i+1:]...)
 		case 3:
 			ms := []int{1, 50, 1000, 11000, 95000, 200000}[rng.Intn(6)]
 			acts = append(acts, Action{Op: "sleep", Ms: ms})
 		case 4:
 			acts = append(acts, Action{Op: "reset", Call: alive[rng.Intn(len(alive))]})
+		case 5:
+			// in either order: not necessarily the one parked longest
+			k := held[rng.Intn(len(held))]
+			acts = append(acts, Action{Op: "release", Call: k})
+			unhold(k)
 		}
 	}
 	return cfg, acts
